@@ -226,8 +226,16 @@ def run(ctx):
                 atoms.append(dict(kind="date", col="modified", opk=opk, text="modified %s '%04d-%02d-%02d'" % (op, y, mo, d), lit=(a0, a0 + 86399)))
             else:
                 H, M, S = rng.choice([(23, 59, 59), (12, 0, 0), (8, 30, 15), (0, 0, 0)])
-                a0 = calendar.timegm((y, mo, d, H, M, S))
-                atoms.append(dict(kind="date", col="modified", opk=opk, text="modified %s '%04d-%02d-%02d %02d:%02d:%02d'" % (op, y, mo, d, H, M, S), lit=(a0, a0)))
+                prec = rng.choice(["second", "second", "hour", "minute"])
+                if prec == "second":
+                    a0 = calendar.timegm((y, mo, d, H, M, S))
+                    atoms.append(dict(kind="date", col="modified", opk=opk, text="modified %s '%04d-%02d-%02d %02d:%02d:%02d'" % (op, y, mo, d, H, M, S), lit=(a0, a0)))
+                elif prec == "hour":        # the documented `'2017-05-01 15'`: that hour
+                    a0 = calendar.timegm((y, mo, d, H, 0, 0))
+                    atoms.append(dict(kind="date", col="modified", opk=opk, text="modified %s '%04d-%02d-%02d %02d'" % (op, y, mo, d, H), lit=(a0, a0 + 3599)))
+                else:
+                    a0 = calendar.timegm((y, mo, d, H, M, 0))
+                    atoms.append(dict(kind="date", col="modified", opk=opk, text="modified %s '%04d-%02d-%02d %02d:%02d'" % (op, y, mo, d, H, M), lit=(a0, a0 + 59)))
         elif kind == "between":
             col = rng.choice(INT_COLS)
             vals = sorted({attr(n, p, col) for p, n in entries} - {None})
